@@ -8,7 +8,7 @@ PROP_FILES = ["Cache/Properties_C12.v"]
 MANIFEST = dict(
     technique="Coq proof (reachable-state invariant over operation histories) on a Gallina model of cache/mod.rs + process_file_with_cache / load_cache / save_cache; tied by replaying generated histories on the real CLI with every invocation paired with its --no-sloc-cache twin and by comparing outputs and cache.json with the extracted model",
     text="Theorems C12_transparent_modulo_known (every Run of every history with a non-decreasing clock and no same-(mtime,size) rename collision gives out_cached = out_uncached), C12_refuted_rename_same_meta (witness), C12_no_racy_write (the D13 window is closed by the racy-clean rule), C12_corrupt_is_ignored, C12_config_hash_sufficient and the reachable-state invariant C12_cache_invariant hold for every history (unbounded) and every counter oracle. The tie to the Rust code is a seeded CLI replay: writes with os.utime, clock with SGV_NOW, same-size and same-second rewrites, deletes, renames, [languages] changes, cache corruption (truncation sweep, foreign version, wrong hash, garbage, empty, removed).",
-    note="Trusted: Coq kernel, extraction, the counter (its answers enter as the oracle `truth`, computed with sgv-counter), injectivity of compute_config_hash on [languages] tables (a hypothesis of the theorems; C12_refuted_colliding_hash shows it is needed; the run checks that different tables observed have different hashes and that boundary-moving edits of a definition invalidate the cache), SGV_NOW and os.utime. Two custom languages claiming one extension (D23) is outside the model (single-owner extensions); ",
+    note="Trusted: Coq kernel, extraction, the counter (its answers enter as the oracle `truth`, computed with sgv-counter), injectivity of compute_config_hash on [languages] tables (a hypothesis of the theorems; C12_refuted_colliding_hash shows it is needed; the run checks that different tables observed have different hashes and that boundary-moving edits of a definition invalidate the cache), SGV_NOW and os.utime. Two custom languages claiming one extension: the model table is first-match, the replay lists the definitions in descending name order (registration is in name order and the last one wins), tied by the extension-tie histories (a rename that flips the owner). The structure scan is outside the Coq model: that the tool's state directories (.sloc-guard at any depth, .git/sloc-guard) are no project entries is checked on the implementation only, by two-universe histories (the whole history with the cache on vs with --no-sloc-cache everywhere, in two project copies).",
     ref="5 (C12)")
 
 K_D13 = "K12_same_second_same_size"
@@ -82,7 +82,7 @@ def check_history(case, runs, mline, hash_by_cfg):
 
 def truncation_sweep(ctx, exe, contents, step):
     """One fixed project; cache.json truncated at every `step`-th offset between two runs."""
-    base = [("W", (1, 1), 1, T0), ("W", (2, 2), 2, T0), ("W", (3, 10), 3, T0), ("W", (4, 1), 4, T0), ("W", (5, 2), 5, T0),
+    base = [("W", (1, 1), 5, T0), ("W", (2, 2), 6, T0), ("W", (3, 10), 7, T0), ("W", (4, 1), 8, T0), ("W", (5, 2), 9, T0),
             ("L", [(10, 101)]), ("X", "check", [], T0 + 10)]
     with Sandbox("sgv-c12-") as sb:
         sb.write(".sloc-guard.toml", config_text([(10, 101)]))
@@ -101,7 +101,7 @@ def truncation_sweep(ctx, exe, contents, step):
 def key_scenarios(exe):
     """Oracles for the cache KEY on inputs the history generator cannot spell with its path ids: (a) the same relative
     spelling ./a.rs from two working directories of one project, (b) two non-UTF-8 names with the same lossy spelling
-    (such paths bypass the cache since D40). Each: cached == --no-sloc-cache AND both equal the true counts (before D40
+    (such paths bypass the cache since D40), (c) src/a/b.rs next to a file literally named a\\b.rs in src (D90). Each: cached == --no-sloc-cache AND both equal the true counts (before D40
     the uncached run was wrong as well, through the in-memory cache). Returns failure dicts (input = the script)."""
     import subprocess
     fails = []
@@ -155,7 +155,47 @@ def key_scenarios(exe):
                 fails.append({"scenario": "non-utf8-names", "primed": repr(names[k]),
                               "steps": "src/a\\xff.rs = 2 code lines, src/a\\xfe.rs = 1 code + 1 comment line, same size, mtime %d; `check --files ./src/%r` at %d (cached); `stats summary` at %d with and without --no-sloc-cache, RAYON_NUM_THREADS=1" % (T0, names[k], T0 + 10, T0 + 20),
                               "cached": summary(ca[1]), "uncached": summary(un[1]), "truth": truth, "rc": (ca[0], un[0])})
+    # (c) a backslash is an ordinary file-name character outside Windows: src/a/b.rs and the file named a\b.rs in src
+    #     are two files (the key once replaced every backslash by a slash on every platform: D90)
+    for k in (0, 1, 2):
+        with Sandbox("sgv-c12-") as sb:
+            sb.write(".sloc-guard.toml", "")
+            names = ("src/a/b.rs", "src/a\\b.rs")
+            try:
+                for nm, text in zip(names, (A, B)):
+                    os.utime(sb.write(nm, text), (T0, T0))
+            except OSError:
+                continue
+            if k < 2:
+                run(sb, ["check", "--files", "./" + names[k], "--format", "json"], sb.proj, T0 + 10)
+            else:
+                run(sb, ["stats", "summary", "--format", "json"], sb.proj, T0 + 10)
+            ca = run(sb, ["stats", "summary", "--format", "json"], sb.proj, T0 + 20)
+            un = run(sb, ["stats", "summary", "--format", "json", "--no-sloc-cache"], sb.proj, T0 + 20)
+            truth = (2, 4, 3, 1, 0)
+            if not (ca == un and summary(ca[1]) == truth):
+                fails.append({"scenario": "backslash-in-name", "primed": names[k] if k < 2 else "full scan",
+                              "steps": "src/a/b.rs = 2 code lines, the file literally named `a\\b.rs` inside src = 1 code + 1 comment line, same size, mtime %d; %s at %d (cached); `stats summary` at %d with and without --no-sloc-cache, RAYON_NUM_THREADS=1" % (
+                                  T0, ("`check --files ./%s`" % names[k]) if k < 2 else "`stats summary`", T0 + 10, T0 + 20),
+                              "cached": summary(ca[1]), "uncached": summary(un[1]), "truth": truth, "rc": (ca[0], un[0])})
     return fails
+
+
+def universe_failures(exe, ucases):
+    """Two-universe oracle: the history with the cache on in one project copy, the same history with --no-sloc-cache on
+    every invocation in another; every invocation must give the same output and exit code in both."""
+    out = []
+    with cf.ThreadPoolExecutor(max_workers=12) as ex:
+        results = list(ex.map(lambda c: replay_universes(exe, c), ucases))
+    nruns = 0
+    for c, (runs, left) in zip(ucases, results):
+        nruns += len(runs)
+        bad = [{"run": i, "step": r["step"], "cached_rc": r["cached"][0], "uncached_rc": r["uncached"][0],
+                "cached_out": r["cached"][1][:1200], "uncached_out": r["uncached"][1][:1200], "cached_err": r["cached"][2][-300:]}
+               for i, r in enumerate(runs) if r["cached"][:2] != r["uncached"][:2] or r["cached"][0] not in (0, 1)]
+        if bad:
+            out.append((c, bad, left))
+    return out, nruns
 
 
 def run(ctx):
@@ -185,6 +225,10 @@ def run(ctx):
         cases.append({"h": cwd_history(rng, contents, tab, groups), "tag": "working-directory"})
     for _ in range(24 if quick else 400):
         cases.append({"h": xlang_history(rng, contents, tab), "tag": "rename-across-languages"})
+    for _ in range(24 if quick else 400):
+        cases.append({"h": zero_history(rng, contents, tab), "tag": "empty-and-ignored"})
+    for _ in range(30 if quick else 400):
+        cases.append({"h": tie_history(rng, contents, tab), "tag": "extension-tie"})
     for _ in range(16 if quick else 300):
         p0, a0, t0 = (rng.choice(FILE_STEMS), rng.choice([1, 2, 3])), rng.randint(1, len(contents)), T0 + rng.randrange(0, 1000)
         cases.append({"h": [("W", p0, a0, t0), ("X", rng.choice(CMDS), [], t0 + 2),
@@ -251,24 +295,36 @@ def run(ctx):
                        "replayed on sgcli in a Sandbox; every Run executed twice (with and without --no-sloc-cache): evaluations = CLI invocations. Languages-boundary histories edit one definition so that only a list boundary, an empty item, the marker order, the name or the extension split changes, on a file the two definitions classify differently. Rename-across-languages histories rename or copy (cp -p) a file that has a stored entry to an extension with other comment markers, the content being one the two languages count differently. Symlink histories name a link (own mtime old; target inside or outside the scanned tree) explicitly with check --files / stats <path>, edit, delete and re-create the target or re-point the link. Foreign-version histories replace cache.json by a well-formed file of every version 0..CACHE_VERSION+2 but the current one, same hash and metadata, other statistics, `ignored` absent or present. Directed histories put a same-size rewrite in the second of a "
                        "previous run, rename a same-(mtime,size) file over a cached path, or keep the rewrite one second apart; a truncation sweep cuts cache.json at every %d-th byte (size %d). "
                        "Compared: stdout+exit code of the pair (property oracle), per-file statistics / totals and cache.json entries against the extracted Coq model. "
+                       "Two-universe histories: nested sub-projects (own .sloc-guard.toml, 1-4 levels deep) run from inside their directory, the enclosing project run from its root with [structure] max_dirs / max_files / max_depth at the boundary, and git projects (state in .git/sloc-guard) whose scanner.exclude does not list .git/**; the whole history once with the cache on and once with --no-sloc-cache everywhere, in two project copies, compared invocation by invocation. "
                        "non-trivial = histories with at least one edit, rename, delete, configuration change or corruption between two runs" % (64 if quick else 8, csize))
     ctx.cov["input_distribution"] = dist
     ctx.cov["trusted_base"] = TRUSTED_COMMON + ["the counter's answers enter the model as the oracle `truth` (computed with sgv-counter)",
                                                 "compute_config_hash is assumed injective on [languages] tables (hypothesis of the theorems); tied in the run: same table -> same hash, different tables -> different hashes",
                                                 "SGV_NOW clock hook, os.utime; mtime of a rename is preserved by the file system"]
     ctx.assumptions = ["wall-clock values of a history never decrease and a file's mtime is the second of its last write",
-                       "the cache key identifies the file (the model takes paths as identities): justified for UTF-8 paths by the absolute-path key (D41; runs from the root and from sub-directories share the project cache in the generated histories), non-UTF-8 paths bypass the cache (D40; theorem C12_unkeyed_path_independent); both also exercised by the key scenarios of the run",
+                       "the cache key identifies the file (the model takes paths as identities): justified for UTF-8 paths by the absolute-path key (D41; runs from the root and from sub-directories share the project cache in the generated histories; a backslash stays a name character outside Windows, D90), non-UTF-8 paths bypass the cache (D40; theorem C12_unkeyed_path_independent); both also exercised by the key scenarios of the run",
                        "a symbolic link named explicitly is, as fs::metadata / fs::read see it, another name for the target's content and mtime (model op Copy; the replay mirrors every change of the target on the link path)",
-                       "single-owner extensions in [languages] (two custom languages claiming one extension: D23, C20)"]
+                       "an extension claimed by several custom definitions belongs to the one whose name sorts last (registry registers in name order, last wins): the replay hands the model the claims in descending name order (first match)",
+                       "directory and file COUNTS of the structure scan are not in the Coq model; the two-universe histories compare them on the implementation (state directories must not become project entries)"]
     xcheck(ctx, cases, mlines, 12 if quick else 60)
     # ---------------- verdicts
     reported = 0
     kfails = key_scenarios(exe)
-    ctx.cov["key_scenarios"] = {"run": 4, "failed": len(kfails)}
-    ctx.cov["evaluations"] += 12
+    ctx.cov["key_scenarios"] = {"run": 7, "failed": len(kfails)}
+    ctx.cov["evaluations"] += 21
     for f in kfails[:3]:
         ctx.violation(dict(f, kind="property-oracle", what="cached invocation differs from its --no-sloc-cache twin or from the true counts (cache key scenario)",
                            replay_cmd="python3 tools/vp.py check C12 --replay <this file>"))
+        reported += 1
+    ucases = universe_fixed() + [universe_case(rng) for _ in range(24 if quick else 300)]
+    ufails, uruns = universe_failures(exe, ucases)
+    ctx.cov["evaluations"] += 2 * uruns
+    ctx.cov["two_universe_histories"] = {"histories": len(ucases), "invocation_pairs": uruns, "failed": len(ufails),
+                                         "by_tag": {t: sum(1 for c in ucases if c["tag"] == t) for t in sorted({c["tag"] for c in ucases})}}
+    for c, bad, left in ufails[:3]:
+        ctx.violation({"kind": "property-oracle", "what": "an invocation of the history run with the cache on differs from the same invocation of the same history run with --no-sloc-cache throughout (two project copies)",
+                       "universe": c, "failures": bad[:2], "state_directories_left": left,
+                       "replay_cmd": "python3 tools/vp.py check C12 --replay <this file>"})
         reported += 1
     for c, fails, klass in all_fails:
         if klass and ctx.known(klass, "cached run differs from --no-sloc-cache"):
@@ -397,6 +453,16 @@ def xcheck(ctx, cases, mlines, k):
 def replay(ctx, path):
     j = json.load(open(path))
     bins, model = prepare(ctx)
+    if "universe" in j:
+        fails, n = universe_failures(bins["sgcli"], [j["universe"]])
+        print("steps:", json.dumps(j["universe"]["steps"]))
+        for c, bad, left in fails:
+            for b in bad:
+                print("run %d %s DIFFERENT rc cached=%d uncached=%d\n  cached  : %s\n  uncached: %s" % (
+                    b["run"], b["step"], b["cached_rc"], b["uncached_rc"], b["cached_out"][:600].replace("\n", " "), b["uncached_out"][:600].replace("\n", " ")))
+            print("state directories left:", left)
+        print("%d invocation pairs, %d histories differ" % (n, len(fails)))
+        return 0
     if "scenario" in j:
         for f in key_scenarios(bins["sgcli"]):
             print("FAIL", json.dumps(f, default=str))
